@@ -28,7 +28,8 @@ FIX_COMMITS = ['c5b9684 (C05 DataReader EOD==0)', 'c3bb002 (C17 ESC prefix on 1x
                '223ed4f (C14 server writes outside every timeout)', '9b2bc54 (C14 HTTPS relay close before result, unbounded)', '7d79bbe (C14 PROXY header read outside every timeout)', 'e230420 (C06 WsgiEdge non-latin-1 reply text)',
                '6997a1c (C13 all recipients rejected with different 5xx replies collapsed into one)',
                '106ab19 (C13 bounce embeds the 7-bit converted message)', '3059694 (C18 socket error during the header read escapes)', '735dfbb (C12 scheduler sleeps by a stale clock reading)',
-               'ebf8fef (C03 enqueue() re-attempts a message the scheduler already handled)']
+               'ebf8fef (C03 enqueue() re-attempts a message the scheduler already handled)',
+               '925db17 (C06 interrupted send repeated by the next flush)']
 
 ENGINES = [
     {'name': 'runner', 'path': 'vf/runner.py', 'serves_properties': [],
